@@ -24,7 +24,7 @@ RULE = (
     "idempotent (second call changes nothing). Non-trivial: rotation not a multiple of 90 degrees, or non-zero skew, or an "
     "exact 90-degree rotation (zero diagonal)."
 )
-ASSUMPTIONS = ["degenerate matrices are excluded by construction (scale>=1e-4 deg, |skew|<=25 deg)", "pixels whose world coordinates are undefined before the flip (outside the projection's domain) are skipped"]
+ASSUMPTIONS = ["degenerate matrices are excluded by construction (scale>=5e-10 deg, |skew|<=25 deg)", "pixels whose world coordinates are undefined before the flip (outside the projection's domain) are skipped"]
 
 
 def world(wcs, xs, ys):
@@ -218,6 +218,12 @@ def strat(draw, tier):
     if case["wcs"]["proj"] in ("TAN", "SIN", "ARC", "STG") and draw(st.integers(0, 5)) == 0:
         # (zenithal projections: any native longitude of the pole is a valid rotation about the reference point)
         case["wcs"]["lonpole"] = draw(st.sampled_from([0.0, 135.0, 90.0, 180.0, -45.0, 10.5]))
+    if draw(st.integers(0, 5)) == 0:
+        # the WCS remembers no image size, or the size of another image
+        case["wcs"]["naxis"] = draw(st.sampled_from(["none", [case["width"] + draw(st.integers(1, 300)), case["height"] + draw(st.integers(1, 300))], [max(1, case["width"] // 2), max(1, case["height"] // 3)]]))
+    if draw(st.integers(0, 6)) == 0:
+        # very fine pixel scales (VLBI maps): down to a few micro-arcseconds per pixel
+        case["wcs"]["scale"] = 10 ** draw(st.floats(-9.3, -4.0))
     if draw(st.integers(0, 4)) == 0:
         # another object that shares this one's WCS object is flipped first: this one must not notice
         case["companion"] = draw(st.sampled_from(["flip", "ensure", "flip+flip"]))
